@@ -21,6 +21,8 @@ P = {
          "The predicate call log must be a permutation of the content, kept elements and written priorities must be exactly the requested ones, pop_if predicates must see the peeked extreme; a drain check follows each call.", "3 C08"),
  "C09": ("property-based testing of iter_mut call programs (address/identity distinctness of live &mut, exhaustion, len/size_hint)",
          "Generated next/next_back/probe programs on iter_mut and (&mut q).into_iter() with all yielded references kept alive: addresses and ids pairwise distinct, exhaustion yields everything once then None forever, exact len/size_hint where ExactSizeIterator is declared; checked and release builds.", "3 C09"),
+ "C10": ("fault-injection fuzzing: panics armed at generated / exhaustively swept callback indices (Ord, Hash, Eq, Clone, closures, feeding iterator) and leaked guards, in a sanitizing build with drop accounting",
+         "Generated histories in which operations run with a fuse that panics at the k-th user callback inside the operation (k scaled into the callback count measured on a clone; the thorough tier sweeps every k), iter_mut/drain guards leaked with mem::forget, then generated continuations and a deterministic battery on the survivor. Violations are concrete: an abort from std's unsafe-precondition checks / a signal in a journalled worker process, or an instrumented item/priority instance dropped twice or leaked.", "3 C10"),
  "C11": ("model-based property testing of push_increase/push_decrease over lower/equal/higher offers",
          "Exact return value and full content/order observation after push_increase/push_decrease with offered priorities relative to the stored one (incl. equal, parent's, extremes), targeted by heap position.", "3 C11"),
  "C12": ("model-based property testing over items with a payload ignored by Eq/Hash; owned vs borrowed lookups",
@@ -39,7 +41,6 @@ P = {
          "Capacity ops are invisible to the reference model, so any influence on contents, extraction order or later results is a failure; capacity() lower bounds are asserted; unsatisfiable try_reserve must return Err without panic and leave the queue unchanged.", "3 C17"),
 }
 NOT_YET = {
- "C10": "check under construction in this round (fault-injection runner); will be claimed when built",
 }
 checks = []
 for pid, (tech, text, ref) in sorted(P.items()):
